@@ -46,7 +46,21 @@ impl<'a> SectionsBuilder<'a> {
             return;
         }
 
-        self.builder.set_insert(true);
+        // an item that starts with a list is merged into that list: what follows the list goes
+        // after the blocks the last merged item already has, not in their place
+        let mut last_child = self.builder.node().child_id();
+        while let Some(next) = last_child.and_then(|id| self.builder.graph().graph_node(id).next_id()) {
+            last_child = Some(next);
+        }
+        match last_child {
+            Some(id) => {
+                self.builder.set_id(id);
+                self.builder.set_insert(false);
+            }
+            None => {
+                self.builder.set_insert(true);
+            }
+        }
         let first_header = first_header(range.clone(), content);
         let pre_header_range = range.start..first_header.unwrap_or(range.end);
         for i in pre_header_range.clone() {
